@@ -11,6 +11,7 @@
 //! predicted; ids inside unsampled traces (which no event shows) are learned from the first
 //! observation inside the span and every later observation must agree with it.
 
+pub mod ctxt;
 pub mod exec;
 pub mod interp;
 pub mod rt;
@@ -23,7 +24,7 @@ use vcore::{vassert, Cx, Fail, Res};
 
 use interp::Env;
 use rt::{Rec, Sc, Tp, L};
-use tree::{unwinds, Carry, Case, Form, Header, PItem, PNode, Prog, RunHow};
+use tree::{unwinds, Carry, Case, CtxtVia, Form, Header, PItem, PNode, Prog, RunHow};
 
 pub const SIG_FRAME_CURRENT_HOP: &str = "frame-current-hop-drops-traceparent";
 
@@ -98,6 +99,10 @@ struct Judge<'a> {
     in_header_scope_any: bool,
     /// what was active where each `CaptureFrame` ran, by slot
     captured: BTreeMap<usize, Active>,
+    /// the slots whose frame was made with `Frame::root(ctxt, plain property)`
+    root_frames: BTreeSet<usize>,
+    root_frame_entered: bool,
+    root_frame_entered_in_trace: bool,
     foreign_in_sampled_span: bool,
     foreign_in_unsampled_span: bool,
     foreign_under_header: bool,
@@ -473,9 +478,12 @@ impl<'a> Judge<'a> {
                 // "the previous traceparent is restored": after the unwind it is what it was before the scopes
                 self.check(*post, a, cx, "after catch_unwind")
             }
-            PItem::CaptureFrame { slot, .. } => {
+            PItem::CaptureFrame { slot, root, .. } => {
                 // the frame is a snapshot of what is active right here
                 self.captured.insert(*slot, a);
+                if *root {
+                    self.root_frames.insert(*slot);
+                }
                 Ok(())
             }
             PItem::RunFrame { frame, how, items, pre, end, post, .. } => {
@@ -510,6 +518,19 @@ impl<'a> Judge<'a> {
                 let c = self.captured.get(slot).copied().unwrap_or(Active { unknown: true, ..NOTHING });
                 let inner = if a.unknown || c.unknown {
                     Active { unknown: true, ..a }
+                } else if self.root_frames.contains(slot) {
+                    // `Frame::root(ctxt, plain property)`: a frame for JUST that property
+                    self.root_frame_entered = true;
+                    if c.tp.is_none() && (elsewhere || a.tp.is_none()) {
+                        // no trace where it was made, none where it is entered
+                        NOTHING
+                    } else {
+                        // made or entered inside a trace: whether a root frame shows that trace is not stated —
+                        // nothing inside is judged (what it leaves behind is)
+                        cx.dont_care();
+                        self.root_frame_entered_in_trace = true;
+                        Active { unknown: true, ..a }
+                    }
                 } else if c.tp.is_some() {
                     // captured inside a trace: the frame carries that traceparent wherever it is entered
                     c
@@ -745,34 +766,97 @@ impl<'a> Judge<'a> {
     }
 }
 
+/// What one run of the program left behind (and the first thing that went wrong while it ran).
+type Ran = (Vec<Rec>, Vec<L>, Option<Fail>);
+
+struct Exec<'p> {
+    case: &'p Case,
+    prog: &'p Prog,
+    skip_broken_hops: bool,
+}
+
+impl<'p> ctxt::Run for Exec<'p> {
+    type Out = Ran;
+
+    fn run<C: rt::RtCtxt>(self, ctxt: C) -> Ran {
+        let (rt, rec, log) = rt::build(self.case, ctxt);
+        let fail = Mutex::new(None);
+        let frames: Vec<Mutex<Option<interp::CapturedFrame<C>>>> = (0..self.prog.frames).map(|_| Mutex::new(None)).collect();
+
+        // a fresh thread per case: the thread-local ACTIVE_TRACEPARENT starts clean whatever happened before
+        let ran = std::thread::scope(|s| {
+            s.spawn(|| {
+                vcore::catch(|| {
+                    let env = Env { rt: &rt, log: &log, skip_broken_hops: self.skip_broken_hops, fail: &fail, frames: &frames };
+                    interp::run_root(&env, self.prog)
+                })
+            })
+            .join()
+        });
+        // frames nobody took are closed before the runtime goes
+        drop(frames);
+        let helper = fail.into_inner().unwrap().map(|f| Fail::new(f.sig, format!("on a helper thread: {}", f.msg)));
+        let failed = match ran {
+            Ok(Ok(())) => helper,
+            Ok(Err(f)) => Some(f),
+            Err(_) => Some(Fail::new("panic@case-thread", "the case thread died outside the guarded body")),
+        };
+        let recs = rec.0.lock().unwrap().clone();
+        let log = log.lock().unwrap().clone();
+        (recs, log, failed)
+    }
+}
+
+/// Run the program with the ctxt carried as `via` says and judge what it left.
+fn run_and_judge(case: &Case, via: &CtxtVia, prog: &Prog, cx: &mut Cx) -> Res {
+    let skip_broken_hops = cx.is_known(SIG_FRAME_CURRENT_HOP);
+    let (recs, log, failed) = ctxt::with_ctxt(via, Exec { case, prog, skip_broken_hops });
+    if let Some(f) = failed {
+        cx.fail(f.sig, f.msg)?;
+    }
+    judge(case, prog, &recs, &log, cx)
+}
+
+pub const SIG_CARRIER: &str = "ctxt-carrier-not-transparent";
+
 pub fn check_case(case: &Case, cx: &mut Cx) -> Res {
     let prog = tree::number(case);
-    let (rt, rec, log) = rt::build(case);
-    let fail = Mutex::new(None);
-    let skip_broken_hops = cx.is_known(SIG_FRAME_CURRENT_HOP);
-    let frames: Vec<Mutex<Option<interp::CapturedFrame>>> = (0..prog.frames).map(|_| Mutex::new(None)).collect();
-
-    // a fresh thread per case: the thread-local ACTIVE_TRACEPARENT starts clean whatever happened before
-    let ran = std::thread::scope(|s| {
-        s.spawn(|| {
-            vcore::catch(|| {
-                let env = Env { rt: &rt, log: &log, skip_broken_hops, fail: &fail, frames: &frames };
-                interp::run_root(&env, &prog)
-            })
-        })
-        .join()
-    });
-    match ran {
-        Ok(Ok(())) => {}
-        Ok(Err(f)) => cx.fail(f.sig, f.msg)?,
-        Err(_) => cx.fail("panic@case-thread", "the case thread died outside the guarded body")?,
+    let first = match run_and_judge(case, &case.ctxt, &prog, cx) {
+        Ok(()) => return Ok(()),
+        Err(f) => f,
+    };
+    if case.ctxt.is_plain() {
+        return Err(first);
     }
-    if let Some(f) = fail.into_inner().unwrap() {
-        cx.fail(f.sig, format!("on a helper thread: {}", f.msg))?;
+    // The statement failed behind a carrier. If the very same program fails on the concrete ctxt too, the
+    // carrier has nothing to do with it. Otherwise name the carrier(s) in the stack that do not hand every
+    // `Ctxt` method on unchanged (signature per carrier kind, so that a listed finding steps over exactly one).
+    let plain = vcore::with_cx("C18", |scratch| run_and_judge(case, &CtxtVia::default(), &prog, scratch));
+    if plain.is_err() {
+        return Err(first);
     }
-    let recs = rec.0.lock().unwrap().clone();
-    let log = log.lock().unwrap().clone();
-    judge(case, &prog, &recs, &log, cx)
+    let mut named = false;
+    for kind in case.ctxt.kinds() {
+        let wrong = ctxt::carrier_misroutes(kind);
+        if !wrong.is_empty() {
+            named = true;
+            cx.fail(
+                format!("{SIG_CARRIER}/{kind}"),
+                format!(
+                    "the program passes with the concrete TraceparentCtxt but not with {:?}: the `{kind}` impl of Ctxt does not forward every method ({}); first difference: [{}] {}",
+                    case.ctxt,
+                    wrong.join("; "),
+                    first.sig,
+                    first.msg
+                ),
+            )?;
+        }
+    }
+    if named {
+        // only listed carriers: stepped over
+        return Ok(());
+    }
+    Err(Fail::new(first.sig, format!("(passes with the concrete TraceparentCtxt, fails with {:?}) {}", case.ctxt, first.msg)))
 }
 
 pub fn judge(case: &Case, prog: &Prog, recs: &[Rec], log: &[L], cx: &mut Cx) -> Res {
@@ -810,6 +894,9 @@ pub fn judge(case: &Case, prog: &Prog, recs: &[Rec], log: &[L], cx: &mut Cx) -> 
         complete_with_unsampled: false,
         in_header_scope_any: false,
         captured: BTreeMap::new(),
+        root_frames: BTreeSet::new(),
+        root_frame_entered: false,
+        root_frame_entered_in_trace: false,
         foreign_in_sampled_span: false,
         foreign_in_unsampled_span: false,
         foreign_under_header: false,
@@ -934,6 +1021,26 @@ pub fn judge(case: &Case, prog: &Prog, recs: &[Rec], log: &[L], cx: &mut Cx) -> 
     cx.class_if(j.foreign_how_enter, "foreign-frame:captured-outside-trace/entered-by-enter-guard");
     cx.class_if(j.foreign_how_future, "foreign-frame:captured-outside-trace/entered-by-in-future");
     cx.class_if(prog.frames > 0, "captured-frame");
+    cx.class_if(j.root_frame_entered, "root-frame:entered");
+    cx.class_if(j.root_frame_entered_in_trace, "root-frame:made-or-entered-inside-a-trace");
+    // how the ctxt reaches the runtime, and what went through each carrier
+    let via = &case.ctxt;
+    cx.class(&format!("ctxt-via:{:?}", via.via));
+    cx.class_if(via.via.is_erased() && !via.nest.is_empty(), "ctxt-nest:1+");
+    cx.class_if(via.via.is_erased() && via.nest.len() >= 2, "ctxt-nest:2+");
+    cx.class_if(via.via.is_erased() && via.inner.is_some(), "ctxt-inner:erased");
+    cx.class_if(via.via.is_erased() && via.inner.as_ref().map_or(false, |ws| !ws.is_empty()), "ctxt-inner:wrapped");
+    let mut kinds = via.kinds();
+    if kinds.is_empty() {
+        kinds.push("concrete");
+    }
+    for k in kinds {
+        // a rejected root span is opened with `open_disabled`, a sampled span with `open_push`
+        cx.class_if(j.roots_unsampled > 0, &format!("ctxt-carrier:{k}/rejected-root-span"));
+        cx.class_if(j.unsampled_root_with_descendants, &format!("ctxt-carrier:{k}/rejected-root-with-descendants"));
+        cx.class_if(j.roots_sampled > 0, &format!("ctxt-carrier:{k}/sampled-root-span"));
+        cx.class_if(j.root_frame_entered, &format!("ctxt-carrier:{k}/root-frame"));
+    }
     cx.class_if(j.exit_panic_sync_call, "exit:panic-sync-call");
     cx.class_if(j.exit_panic_enter_guard, "exit:panic-enter-guard");
     cx.class_if(j.exit_panic_async, "exit:panic-async");
